@@ -16,14 +16,24 @@ Oracles (DESIGN.md section 5, C16)
               and noises recomputed by the harness from the stored per-system quantities for the *expected*
               reaction list; labels also recomputed from the raw synthetic data.
  alpha        dense reference  alpha_k = s0 (Kmm_k+eps)^-1 Kmn_k (s0 sum_k Knm Kmm^-1 Kmn + nf Sigma + eps)^-1 y
-              (numpy LU + one longdouble refinement step; the code uses Cholesky); predictions, Kcov_, K_, alpha_mol_.
+              with s0 = x0^2, nf = sigma_min + x1^2 (1, 1 without x), eps = 1e-9 (numpy LU + one longdouble
+              refinement step; the code uses Cholesky).  Compared: training predictions sum_k Knm_k alpha_k and
+              per-system predictions cov_dict[sys].alpha_k (incl. systems in no reaction), Kcov_, K_ - Kcov_,
+              alpha_mol_, kernel.alpha.  cond(Kmm+eps) reaches 3e11 and cond(K) 5e13 in the workload, so weights
+              and K are measured in units of their first-order rounding-propagation bound (|K^-1| E |w| with
+              E = |K| + sum_k |A_k|'|Kmm_k||A_k|, A_k = Kmm_k^-1 Kmn_k), predictions on the backward-error scale.
  residual     y - sum_k Knm_k alpha_k == (nf Sigma + eps) alpha_mol_   (all quantities from the code's outputs).
  order        any two fits in the history (or in a fresh model with systems and reactions shuffled) with the same
               multiset of reactions and the same (x, sigma_min) agree up to the induced permutation.
- likelihood   compute_likelihood(x, sigma_min) == log N(y; 0, x0^2 Kcov + (sigma_min + x1^2)(K - Kcov)) through
-              scipy.stats.multivariate_normal, and at the neutral point x1^2 = 1 - sigma_min == the log marginal
-              likelihood of the fitted model (-y.alpha_mol_/2 - logdet K/2 - n log(2 pi)/2).  Default arguments are
+ likelihood   compute_likelihood(x, sigma_min) == log N(y; 0, x0^2 Kcov_ + (sigma_min + x1^2)(K_ - Kcov_)) of the
+              stored matrices (themselves compared with the reference above), evaluated by refined LU + slogdet and
+              by scipy.stats.multivariate_normal; at the neutral point x1^2 = 1 - sigma_min == the log marginal
+              likelihood of the fitted model (-y.alpha_mol_/2 - logdet K_/2 - n log(2 pi)/2).  Default arguments are
               only recorded (rec.note), see DESIGN.md section 6.
+ control pts  the reduced set is a duplicate-free subset of the candidates, within ctrl_nmax.
+
+Configurations in which the tree raises before any fit exists (FRAGILE below) are probed by a few cases and
+recorded as coverage["observations"]["not_reached"]; if the tree stops raising there, the same oracles apply.
 """
 import contextlib
 import io
@@ -44,15 +54,17 @@ RULE = ("case = history: (model class MOLGP|MOLGP2, semilocal mode, NLDF/SDMX bl
         "units) x operation sequence (store in chunks / re-store, add in chunks / duplicates, reset, fit with and "
         "without (x, sigma_min), likelihood, fresh model with shuffled systems and reactions).  A fit is "
         "non-trivial when it has >= 3 reactions, the GP part of K is >= 1e-3 of the noise part and the training "
-        "residual is >= 1e-6 of the labels (so alpha matters and noise matters); distinct = (case, step)")
-MIN_NONTRIVIAL = {"quick": 30, "thorough": 450}
+        "residual is >= 1e-6 of the labels (so alpha matters and noise matters); an order comparison when the "
+        "permutation is not the identity; a likelihood step always; an orbital-derivative covariance when its FD "
+        "self-error is below tol/10; distinct = (case, step | pair of steps | kernel, system, orbital)")
+MIN_NONTRIVIAL = {"quick": 60, "thorough": 1000}
 ASSUMPTIONS = [
     "training data are synthetic but model-shaped (positive densities, tau >= tau_W, finite features); the on-disk "
     "layout is the one MOLGP.load_data reads, written with pyscf.lib.chkfile",
     "the numerical jitter documented in MOLGP.__init__ (numerical_epsilon = 1e-9) is part of the reference on "
     "both Kmm and K",
-    "weights are compared with a conditioning-aware tolerance (1e-13 x condition number), predictions / residuals "
-    "relative to the natural backward-error scale |y| + |Knm||alpha|",
+    "weights and K matrices are compared in units of their first-order rounding-propagation bound (conditioning-"
+    "aware by construction), predictions / residuals relative to the backward-error scale |y| + |Knm||alpha|",
     "compute_likelihood is decided for explicit (x, sigma_min) only; hyper-parameter optimisation is not an "
     "identity and is not covered",
     "configurations in which the tree raises before a fit exists (orbital derivatives with POL kernels or MOLGP2, "
@@ -929,8 +941,9 @@ class _Model:
             bs = max(old["bscale"], snap["bscale"])
             rec.check("order_pred", float(np.max(np.abs(snap["pred"][p] - old["pred"]))) / bs, TOL_ORDER,
                       mechanism=label, detail=det)
-            rec.check("order_alpha_mol", float(np.max(np.abs(snap["w"][p] - old["w"]))) / max(float(np.max(snap["dw"])), float(np.max(old["dw"])), 1e-300),
-                      TOL_BWD, mechanism=label + ":reaction-weights", detail=det)
+            ws = max(float(np.max(snap["dw"])), float(np.max(old["dw"])), 1e-300)
+            rec.check("order_alpha_mol", float(np.max(np.abs(snap["w"][p] - old["w"]))) / ws, TOL_BWD,
+                      mechanism=label + ":reaction-weights", detail=det)
             for ik, (a, b) in enumerate(zip(snap["alphas"], old["alphas"])):
                 rec.check("order_alpha", float(np.max(np.abs(a - b))) / max(snap["ascale"][ik], old["ascale"][ik]), TOL_BWD,
                           mechanism=label + ":weights", detail=dict(det, kernel=ik, rel=relerr(a, b)))
@@ -958,14 +971,17 @@ class _Model:
             ev = np.linalg.eigvalsh(Kfull)
             cond = float(ev[-1] / ev[0])
             wf = np.abs(_solve_refined(Kfull, y))
-            scale = 0.5 * float(wf.dot(np.abs(Kfull).dot(wf))) + 0.5 * float(np.sum(np.abs(np.log(ev)))) + 0.5 * n * np.log(2 * np.pi)
-            det = {"x": x.tolist(), "sigma_min": smin, "got": got, "want": want, "scipy": want_sp, "cond": cond, "step": step}
+            scale = (0.5 * float(wf.dot(np.abs(Kfull).dot(wf))) + 0.5 * float(np.sum(np.abs(np.log(ev))))
+                     + 0.5 * n * np.log(2 * np.pi))
+            det = {"x": x.tolist(), "sigma_min": smin, "got": got, "want": want, "scipy": want_sp, "cond": cond,
+                   "step": step}
             _calib("lik", err=abs(got - want) / scale, err_scipy=None if want_sp is None else abs(got - want_sp) / scale,
                    cond=cond, n=n)
             rec.check("likelihood_vs_gaussian", abs(got - want) / scale, TOL_LIK, mechanism="MOLGP.compute_likelihood:formula",
                       detail=det)
             if want_sp is not None:
-                rec.check("likelihood_vs_scipy", abs(got - want_sp) / (scale * (1.0 + TOL_LIK_SCIPY_COND / TOL_LIK * cond)), TOL_LIK,
+                sscale = scale * (1.0 + TOL_LIK_SCIPY_COND / TOL_LIK * cond)
+                rec.check("likelihood_vs_scipy", abs(got - want_sp) / sscale, TOL_LIK,
                           mechanism="MOLGP.compute_likelihood:formula", detail=det)
             if j == 3:
                 # must be the log marginal likelihood of the fitted model itself (ties fit and likelihood)
